@@ -106,6 +106,14 @@ def thresholder_consumers():
         "hysteresis_0.5": (lambda: run(T.HysteresisThresholder(high_threshold=0.5, low_threshold=0.5, input_type=L)), always),
         "hysteresis_default": (lambda: run(T.HysteresisThresholder(input_type=L)), lambda l, b: np.abs(l).min() >= 0.5),
         "weighted_1": (lambda: run(T.WeightedThresholder(weights=1.0, input_type=L)), always),
+        # per-position weights (list and tensor forms) take another branch than the scalar weight
+        "weighted_vector_list": (lambda: (lambda llr: T.WeightedThresholder(weights=[1.0] * llr.shape[-1], input_type=L)(torch.from_numpy(llr.astype(np.float32))).numpy()), always),
+        "weighted_vector_tensor": (lambda: (lambda llr: T.WeightedThresholder(weights=torch.ones(llr.shape[-1]), input_type=L)(torch.from_numpy(llr.astype(np.float32))).numpy()), always),
+        "ensemble_weighted": (lambda: run(T.SoftBitEnsembleThresholder([T.LLRThresholder(), T.WeightedThresholder(weights=1.0, input_type=L), T.MinDistanceThresholder(input_type=L)],
+                                                                       voting="weighted", weights=[1.0, 2.0, 1.0])), always),
+        "ensemble_any": (lambda: run(T.SoftBitEnsembleThresholder([T.LLRThresholder(), T.MinDistanceThresholder(input_type=L)], voting="any")), always),
+        "ensemble_all": (lambda: run(T.SoftBitEnsembleThresholder([T.LLRThresholder(), T.MinDistanceThresholder(input_type=L)], voting="all")), always),
+        "llr_thresholder_soft_out": (lambda: (lambda llr: (T.LLRThresholder(output_type=T.OutputType.SOFT)(torch.from_numpy(llr.astype(np.float32))).numpy() > 0.5).astype(np.float32)), always),
         "dynamic": (lambda: run(T.DynamicThresholder(input_type=L)), lambda l, b: const_mag(l, b) or np.abs(l).min() >= 0.25),
         "ensemble_majority": (lambda: run(T.SoftBitEnsembleThresholder([T.LLRThresholder(), T.WeightedThresholder(weights=1.0, input_type=L),
                                                                          T.HysteresisThresholder(high_threshold=0.5, low_threshold=0.5, input_type=L)])), always),
